@@ -85,7 +85,7 @@ def gen_params(rng, fam, allow_k5=False, boundary=True):
     elif fam in ("int", "port"):
         pool = [-5, 0, 1, 10, 2**31, -2**31, 65535, 100]
         if fam == "int":
-            pool += [0.5, 2.5, -0.5, -2.5]  # bounds need not be integers
+            pool += [0.5, 2.5, -0.5, -2.5, 0.5, 1024.5, -0.5, 99.9]  # bounds need not be integers
         if rng.random() < (0.6 if fam == "int" else 0.2):
             p["min"] = rng.choice(pool)
         if rng.random() < (0.6 if fam == "int" else 0.2):
@@ -167,7 +167,9 @@ def _str_pool(rng, f):
            # padding by whitespace that is not ASCII (str.strip() without argument removes it, a character list does not)
            "\u00a0ab\u00a0", "\u3000", "\x85ab", "ab\x1f", "\u2003 ab \u2028", "\u00a0", "a\u00a0b",
            # text that looks like an escape of some document format
-           "First_x0020_Name", "a_x000A_b", "&#65;", "%41", "\\n"]
+           "First_x0020_Name", "a_x000A_b", "&#65;", "%41", "\\n",
+           # line ends of other platforms, inside and at the end
+           "l1\r\nl2", "\r\n", "x\r", "l1\rl2\n"]
     for c in (p.get("choices") or []):
         out += [c, c.upper(), c.lower(), " " + c + " ", c + "x", "-" + c + "_", "\u00a0" + c + "\u3000", c + "\x85"]
     if p.get("regex"):
@@ -184,7 +186,7 @@ def _str_pool(rng, f):
 
 def _num_pool(rng, f):
     p = f.get("params", {})
-    out = [0, 1, -1, 7, 65535, 65536, 2**31, 10**30, 0.0, 1.5, -0.5, 2.999, -2.999, float("nan"), float("inf"), float("-inf"),
+    out = [0, 1, -1, 7, 65535, 65536, 2**31, 10**30, 2573, 3338, 168626701, 0.0, 1.5, -0.5, 2.999, -2.999, float("nan"), float("inf"), float("-inf"),
            "0", "12", " 12 ", "+5", "-0", "1.5", "1e3", ".5", "5.", "abc", "", " ", "0x10", "12abc", "1,5", "inf", "nan",
            "-Infinity", "1e400", True, False, "\n3\n", "--1", "+", "1 2", "00012", "-7"]
     lo, hi = p.get("min"), p.get("max")
